@@ -21,6 +21,16 @@ def run(pid, repo, work):
             pf = os.path.join(sd, n, "patch.diff")
             if os.path.exists(meta) and os.path.exists(pf) and json.load(open(meta)).get("property") == pid:
                 ms.append({"name": "seed:" + n, "patch": pf, "expect": [pid]})
+    # behaviour-preserving corpora: the check must stay silent on every one of them
+    hr = os.path.join(VERIF, "mutants", "refactors.json")
+    if os.path.exists(hr):
+        for m in json.load(open(hr)):
+            ms.append(dict(m, props=[pid]))
+    rd = os.path.join(VERIF, "refactors")
+    if os.path.isdir(rd):
+        for n in sorted(os.listdir(rd)):
+            if n.endswith(".diff"):
+                ms.append({"name": "refactor:" + n[:-5], "patch": os.path.join(rd, n), "harmless": True})
     if not ms:
         return []
     out = os.path.join(VERIF, ".work", "thorough-%s.json" % pid)
@@ -28,22 +38,28 @@ def run(pid, repo, work):
     for m in ms:
         m["props"] = [pid]
     json.dump(ms, open(tmp, "w"))
-    r = subprocess.run([sys.executable, os.path.join(VERIF, "tools", "mutants.py"), "--file", tmp, "--json", out, "--jobs", "4"],
+    r = subprocess.run([sys.executable, os.path.join(VERIF, "tools", "mutants.py"), "--file", tmp, "--json", out, "--jobs", "6"],
                        capture_output=True, text=True)
     res = json.load(open(out)) if os.path.exists(out) else []
     caught = [x for x in res if x["status"] == "caught"]
     missed = [x for x in res if x["status"] == "MISSED"]
-    skipped = [x for x in res if x["status"] not in ("caught", "MISSED")]
+    silent = [x for x in res if x["status"] == "silent"]
+    alarms = [x for x in res if x["status"] == "FALSE-ALARM"]
+    skipped = [x for x in res if x["status"] not in ("caught", "MISSED", "silent", "FALSE-ALARM")]
     ev = os.path.join(VERIF, "evidence", pid + ".json")
     if repo == "/repo" and os.path.exists(ev):
         e = json.load(open(ev))
         e["tier"] = "thorough"
         e["coverage"]["mutant_sweep"] = {"mutants": len(res), "caught": len(caught), "missed": [x["name"] for x in missed],
                                          "skipped": [x["name"] for x in skipped],
+                                         "harmless_edits_silent": len(silent), "harmless_edits_alarmed": [x["name"] for x in alarms],
                                          "rule": "each stored mutant (a small edit that compiles and passes the 142 tests) is applied "
                                                  "to a scratch copy of the current tree; the check must report a violation on it"}
         json.dump(e, open(ev, "w"), indent=1)
-    print("%s thorough: mutant sweep %d/%d caught, %d skipped" % (pid, len(caught), len(res) - len(skipped), len(skipped)))
+    print("%s thorough: %d/%d breaking edits caught, %d/%d harmless edits silent, %d skipped"
+          % (pid, len(caught), len(caught) + len(missed), len(silent), len(silent) + len(alarms), len(skipped)))
+    for x in alarms:
+        print("NOTE: alarm on a behaviour-preserving edit (checker precision): %s" % x["name"])
     for x in missed:
         print("NOTE: mutant not detected (checker sensitivity): %s" % x["name"])
     return []
